@@ -325,6 +325,19 @@ Definition lp_to_dict (x : sarr) (names : list string) : res (list (string * lis
   | Some idx => Ok (combine names (map (fun i => col_at i (s_rows x)) idx))
   | None => Err
   end.
+(* live_points_to_array(x) with the default names=None: ALL fields in storage order; the int32 field is
+   converted to float64 by structured_to_unstructured (exact for |n| < 2^53) *)
+Definition i2f (z : Z) : option Z :=
+  if z =? 0 then Some 0
+  else let a := Z.abs z in
+       if 2 ^ 53 <=? a then None
+       else let n := Z.log2 a in
+            let b := (n + 1023) * 2 ^ 52 + (a * 2 ^ (52 - n) - 2 ^ 52) in
+            Some (if z <? 0 then b + 2 ^ 63 else b).
+Definition to_f8 (x : val) : val :=
+  match x with VF b => VF b | VI n => match i2f n with Some b => VF b | None => VI n end end.
+Definition lp_to_array_all (x : sarr) : res (list (list val)) :=
+  match lp_to_array x (s_names x) with Ok m => Ok (map (map to_f8) m) | Err => Err end.
 (* pandas.DataFrame(live_points_to_dict(x, names)) : (columns, rows) *)
 Definition lp_to_df (x : sarr) (names : list string) : res (list string * list (list val)) :=
   match lp_to_array x names with Ok a => Ok (names, a) | Err => Err end.
